@@ -55,8 +55,17 @@ def verify_one(args):
             r = discharge(o, timeout_s)
             r.update({"id": o.oid, "line": o.lineno, "note": o.note})
             out["obligations"].append(r)
+        exit_ok = None
         for cid, hyps in covers:
-            out["covers"].append({"id": cid, "status": check_sat(hyps, min(timeout_s, 5.0))})
+            stt = check_sat(hyps, min(timeout_s, 3.0))
+            if cid.endswith("/exit.cover"):
+                exit_ok = bool(exit_ok) or stt != "unsat"
+                continue
+            out["covers"].append({"id": cid, "status": stt})
+        if exit_ok is not None:
+            out["covers"].append({"id": f"{qual}/exit.cover(any normal exit reachable)", "status": "sat" if exit_ok else "unsat"})
+        if c.provider_requires and not getattr(ex, "provider_calls", 0):
+            out["undecided_reason"] = "provider discipline stated but no provider call site was reached (vacuous)"
         if c.yields and ex.yield_sites == 0:
             out["undecided_reason"] = "generator contract but no yield site was reached"
     except Exception as e:  # checker error, never a property verdict
